@@ -1,9 +1,12 @@
 package c02
 
 import (
+	"bytes"
 	"fmt"
 	"os"
 	"strings"
+
+	"go.sia.tech/core/consensus"
 
 	"go.sia.tech/core/types"
 	"go.sia.tech/coreutils/chain"
@@ -240,6 +243,138 @@ func DirectedRevisedResolved(r *vh.Run, rng *vh.RNG, name string, moveWindow boo
 	History(r, name, t, ids, Declare(t, ids), [][]int{pathTo(t, target), pathTo(t, alt)}, chain.NewMemDB(), "directed:"+kind)
 }
 
+// DirectedCheckpoint: a store initialised from a v2 checkpoint above the require height
+// (NewDBStoreAtCheckpoint) sees forks and reorgs above the checkpoint; everything it serves must
+// equal a checkpoint store that was fed the best chain linearly, its tip state must equal the
+// state of a node that replayed the chain from genesis, and every revert must restore the
+// snapshot taken before the block was applied.
+func DirectedCheckpoint(r *vh.Run, rng *vh.RNG, name string) {
+	net := chainx.NewNet(rng, 1, uint64(1+rng.Intn(3)), 2)
+	t := chainx.NewTree(net)
+	kinds := []string{"v2pay", "v2eph", "v2sf", "v2fc", "v2rev", "v2renew", "v2proof", "v2expire"}
+	spec := func() chainx.Spec {
+		var ks []string
+		for n := rng.Intn(3); n > 0; n-- {
+			ks = append(ks, kinds[rng.Intn(len(kinds))])
+		}
+		return chainx.Spec{Kinds: ks, Dt: 1 + rng.Intn(3)}
+	}
+	tip := 0
+	var main []int
+	for i := 0; i < 8+rng.Intn(4); i++ {
+		tip = t.Mine(rng, tip, spec())
+		main = append(main, tip)
+	}
+	req := int(net.N.HardforkV2.RequireHeight)
+	cpPos := req + 1 + rng.Intn(2) // index into main: height cpPos+1 > require
+	cp := main[cpPos]
+	for f := 0; f < 3; f++ {
+		at := main[cpPos+rng.Intn(len(main)-cpPos)]
+		for n := 1 + rng.Intn(5); n > 0; n-- {
+			at = t.Mine(rng, at, spec())
+		}
+	}
+	full := t.Twin(t.Blocks[cp].Parent)
+	parentState := full.CM.TipState()
+	open := func(db chain.DB) func() (*chain.DBStore, consensus.State, error) {
+		return func() (*chain.DBStore, consensus.State, error) {
+			return chain.NewDBStoreAtCheckpoint(db, parentState, t.Blocks[cp].Block, nil)
+		}
+	}
+	c := &vh.Case{Name: name, Tags: []string{"directed:checkpoint"}}
+	ids := NewIDs()
+	decls := Declare(t, ids)
+	db := chain.NewMemDB()
+	rig, err := NewRigWith(c, t, ids, decls, db, open(db))
+	if err != nil {
+		c.Oracle("newdbstore-at-checkpoint-failed", "%v", err)
+		r.Add(c)
+		return
+	}
+	cpHeight := t.Blocks[cp].Height
+	var sched [][]int
+	for _, batch := range t.Schedule(rng) {
+		var b []int
+		for _, id := range batch {
+			if t.Blocks[id].Height > cpHeight {
+				b = append(b, id)
+			}
+		}
+		if len(b) > 0 {
+			sched = append(sched, b)
+		}
+	}
+	compare := func(when string) {
+		tipIdx := rig.Node.CM.Tip()
+		tid, ok := t.Lookup(tipIdx.ID)
+		if !ok {
+			c.Oracle("tip-not-a-valid-block", "%s: unknown tip", when)
+			return
+		}
+		// the linear checkpoint twin
+		tdb := chain.NewMemDB()
+		ts, ttip, err := chain.NewDBStoreAtCheckpoint(tdb, parentState, t.Blocks[cp].Block, nil)
+		if err != nil {
+			panic(err)
+		}
+		tcm := chain.NewManager(ts, ttip)
+		for _, id := range t.Ancestry(tid) {
+			if t.Blocks[id].Height > cpHeight {
+				if err := tcm.AddBlocks([]types.Block{t.Blocks[id].Block}); err != nil {
+					c.Oracle("checkpoint-twin-rejects-valid-block", "%s: block %d: %v", when, id, err)
+					return
+				}
+			}
+		}
+		if tcm.Tip() != tipIdx {
+			// the node under test may legitimately sit on another tip only if the twin's chain is not heavier
+			c.Oracle("checkpoint-twin-tip-differs", "%s: linear checkpoint node is at %v, node under test at %v", when, tcm.Tip(), tipIdx)
+			return
+		}
+		a, b := Canon(kvx.Dump(db)), Canon(kvx.Dump(tdb))
+		best := map[string]bool{}
+		for h := cpHeight; h <= tipIdx.Height; h++ {
+			ci, _ := rig.Node.CM.BestIndex(h)
+			best[string(ci.ID[:])] = true
+		}
+		for _, bucket := range kvx.Buckets {
+			x, y := a[bucket], b[bucket]
+			if bucket == bBlocks || bucket == bState {
+				x, y = restrict(x, best), restrict(y, best)
+			}
+			if d := kvx.DiffBucket(x, y); d != "" {
+				c.Oracle("checkpoint-bucket-differs-from-twin:"+bucket, "%s: %s", when, d)
+			}
+		}
+		if !bytes.Equal(encode(rig.Node.CM.TipState()), encode(tcm.TipState())) {
+			c.Oracle("checkpoint-tip-state-differs-from-twin", "%s", when)
+		}
+		// and the state equals the one a node replaying from genesis reaches
+		if !bytes.Equal(encode(rig.Node.CM.TipState()), encode(t.Twin(tid).CM.TipState())) {
+			c.Oracle("checkpoint-tip-state-differs-from-genesis-replay", "%s: tip %d", when, tid)
+		}
+		for _, bucket := range []string{bSC, bSF, bFC, bTree} {
+			if len(a[bucket]) != 0 {
+				c.Oracle("checkpoint-store-touches-elements:"+bucket, "%s: %d entries in %s above the require height", when, len(a[bucket]), bucket)
+			}
+		}
+	}
+	compare("after NewDBStoreAtCheckpoint")
+	for i, batch := range sched {
+		if res := rig.Submit(batch); res == "panic" {
+			c.Oracle("addblocks-panic", "AddBlocks panicked on batch %v", batch)
+			break
+		}
+		compare(fmt.Sprintf("after batch %d %v", i, batch))
+	}
+	c.Nontrivial = rig.Reverts > 0
+	if rig.Reverts > 0 {
+		c.Tags = append(c.Tags, "has-revert")
+	}
+	c.Info = map[string]any{"checkpoint_height": cpHeight, "require": req, "applies": rig.Applies, "reverts": rig.Reverts}
+	r.Add(c)
+}
+
 func firstLine(s string) string {
 	if i := strings.IndexByte(s, '\n'); i >= 0 {
 		return s[:i]
@@ -393,6 +528,10 @@ func Run(r *vh.Run) {
 			be.Close()
 			os.RemoveAll(dir)
 		})
+	}
+	for i := 0; i < r.Pick(3, 40); i++ {
+		crng := rng.Fork()
+		Safely(r, "checkpoint", func() { DirectedCheckpoint(r, crng, fmt.Sprintf("checkpoint%d", i)) })
 	}
 	trng := rng.Fork()
 	Safely(r, "tree", func() { TreeCase(r, trng) })
